@@ -508,3 +508,27 @@ func verifH_C18_options() {
 	}
 	verifReach("end")
 }
+
+type verifOctet byte
+
+type verifBytes struct {
+	A []byte         `json:"a"`
+	B []verifOctet   `json:"b"`
+	C [][]verifOctet `json:"c"`
+	D []uint8        `json:"d"`
+	E [2]byte        `json:"e"` // an array of bytes is written as an array of numbers
+}
+
+//verif:harness id=C18 tier=quick,thorough witness=end bounds="byte slices: []byte, a slice of a named byte type ([]Octet with type Octet byte), [][]Octet, []uint8 and a byte array [2]byte in one struct; encoding/json writes every slice whose element kind is uint8 as a base64 string and the array as numbers (both symbolic bytes): the generated schema accepts the encoding"
+func verifH_C18_byte_slices() {
+	comps := openapi3.Schemas{}
+	ref, err := NewSchemaRefForValue(&verifBytes{}, comps)
+	verifAssert(err == nil && ref != nil && ref.Value != nil, "C18 byte slices: generation succeeds")
+	if err != nil || ref == nil || ref.Value == nil {
+		return
+	}
+	x, y := verifNondetByte("x"), verifNondetByte("y")
+	enc := map[string]any{"a": "AQI=", "b": "AQI=", "c": []any{"AQ==", ""}, "d": "", "e": []any{float64(x), float64(y)}}
+	verifAssert(ref.Value.VisitJSON(enc) == nil, "C18 byte slices: the generated schema accepts the encoding (base64 strings for slices of bytes, numbers for a byte array)")
+	verifReach("end")
+}
